@@ -521,6 +521,12 @@ N("C12/fen/board-field-texts", ["C12", "C08"], "board::verif_kani_f::n12_board_f
   "for every record whose board field has 1..10 ranks, all '8' except two positions taking every pair of 18 rank tokens (too long, too short, bad characters, empty, '.', nine squares), with three different tails: parsing never panics, and accepted text is stable under parse-format-parse",
   bounded="board fields built from the token grammar listed in kani/board_harness_f.rs (about 50 000 texts)", timeout=1800)
 
+N("C13/chain/equality-native", ["C13"], "chain::verif_kani_d::n13_chain_equality_family", ["<BaseMoveChain as PartialEq>::eq"],
+  "for every pair of a family of ~250 chains (nine start positions, every prefix of their games, stored outcomes; including pairs that reach the SAME live board from DIFFERENT start positions): == holds exactly when start position, move list and stored outcome are equal",
+  bounded="a fixed family of chains (the symbolic form C13/chain/equality is thorough)", timeout=900)
+N("C09/san/roundtrip-native", ["C09"], "moves::san::verif_kani_e::n09_san_roundtrip_positions", ["san::Move::from_move", "san::Data::from_move", "san::Data::into_move", "<san::Move as Display>::fmt", "<san::Move as FromStr>::from_str", "san::AmbigDetector"],
+  "for every legal move of 14 positions rich in ambiguity (three queens / four knights / four bishops reaching one square, castling, en passant, promotions): the SAN text parses back and resolves to the same move; piece moves carry exactly the least disambiguation that is unique among the legal moves (none, file, rank, both) and the capture sign iff the destination is occupied; distinct legal moves get distinct texts",
+  bounded="14 fixed positions (the symbolic forms are C09/from-move/*, C09/into-move/*; into-move/simple is thorough)", timeout=900)
 N("C17/walker/op-sequences-native", ["C17"], "chain::verif_kani_d::n17_walker_all_op_sequences", ["Walker::next", "Walker::prev", "Walker::start", "Walker::end", "Walker::set_board_pos", "BaseMoveChain::walk", "BaseMoveChain::push"],
   "for six fixed games (White and Black to move first, both castlings, en passant, capture-promotion, move number 65534) and EVERY sequence of <= 7 operations from {next, prev, start, end}: each returned move comes with exactly the position that preceded it (whole Board, replayed independently of the chain), None exactly at the ends, pos()/len() right, the chain equal to its snapshot afterwards",
   bounded="six fixed games of <= 6 plies, operation sequences of length <= 7 (the unbounded statement is C17/walker/verus)", timeout=1800)
@@ -530,7 +536,10 @@ N("C17/lists/policies-native", ["C17"], "chain::verif_kani_d::n17_lists_all_poli
 
 K("C12/san/from-str-4", ["C12", "C09", "C02"], "moves::san::verif_kani_d::c12_san_from_str_total_len4", ["<san::Move as FromStr>::from_str", "<san::Data as FromStr>::from_str"],
   "for all UTF-8 strings of <= 4 bytes (this contains every input of defect D2: \"N\", \"R+\", \"Kx\", \"\\u{20ac}\", \"N\\u{e9}4\"): SAN parsing returns a value or an error, never panics",
-  bounded="strings of <= 4 bytes", assumes=["C12/utf8-predicate"], timeout=2400, mem_gb=24, mem_est=6)
+  bounded="strings of <= 4 bytes", assumes=["C12/utf8-predicate"], timeout=2400, mem_gb=24, mem_est=6, tier="thorough")
+N("C12/san/from-str-native", ["C12", "C09", "C02"], "moves::san::verif_kani_e::n12_san_from_str_total_native", ["<san::Move as FromStr>::from_str", "<san::Data as FromStr>::from_str", "<san::Move as Display>::fmt", "<san::Data as Display>::fmt"],
+  "for every UTF-8 string of <= 3 bytes and every string of 4 or 5 characters over the SAN alphabet plus two multi-byte characters (contains every input of defect D2): SAN parsing returns a value or an error, never panics, and a returned value prints to text that parses back to the same value",
+  bounded="all UTF-8 strings of <= 3 bytes; strings of <= 5 characters over a 33-character alphabet (about 42 million texts)", timeout=1200)
 
 
 # ---------------------------------------------------------------------------------------------
@@ -594,6 +603,27 @@ _quick_for(r"^C17/walker/verus$", ["C17", "C04", "C19"])
 _quick_for(r"^C01/validate-glue$", ["C01", "C02"])
 _quick_for(r"^C01/public-glue/", ["C01"])
 _quick_for(r"^C01/public-glue/side-dispatch$", ["C01", "C07", "C09"])
+_thorough(r"^(C13/chain/equality|C09/into-move/simple|C02/spec/validity-preserved)$")   # memory / > 1 h: see DESIGN.md section A
+# spec-level lemmas about the reference alone that need more than ten minutes: thorough (no change
+# to /repo can affect them; they validate kani/refspec.rs)
+_thorough(r"^C18/spec/(validity-colour-mirror|validity-left-right-mirror|moves-colour-mirror|moves-left-right-mirror)$")
+
+
+def _tag_quick(pid, rxs):
+    for o in OBS:
+        if o["tier"] == "quick" and any(_re.search(rx, o["id"]) for rx in rxs):
+            if pid not in o["props"]:
+                o["props"].append(pid)
+            if o.get("quick_for") is not None and pid not in o["quick_for"]:
+                o["quick_for"].append(pid)
+
+
+# C18 quick: the cheap implementation == reference obligations that come in a white and a black
+# instance, plus the colour-dependent constants (the symmetric reference makes any one-colour error fail)
+_tag_quick("C18", [r"^C07/insufficient$", r"^C01/gen/(pawn-enpassant|pawn-simple/tt|castling|king/tt|pawn-capture)/[wb]$",
+                   r"^C06/semilegal/(PawnDouble|Enpassant|CastlingKingside)/[wb]$", r"^C03/make/(Enpassant|PawnDouble)/[wb]$",
+                   r"^C16/attackers/", r"^C15/castling/masks$", r"^C15/pawns/advances$", r"^C20/geometry/ranks-deltas$"])
+
 # C19: for every unsafe site the cheapest quick obligation that executes it (thorough: all of them)
 _c19 = {"C19/unsafe-site-map", "C19/capacity-witnesses"}
 _ids = {o["id"]: o for o in OBS}
